@@ -69,10 +69,11 @@ func (l *levelBackend) kind() string { return "goleveldb" }
 // node: one rootmulti.Store with IAVL substores and one transient store on one database
 
 type nodeOpts struct {
-	names     []string // persistent substore names
-	mount     []string // mount order (a permutation of names + "t")
-	cacheSize int64    // IAVL node cache size (small = children are re-read from the database)
-	viaCMS    bool     // block writes go through CacheMultiStore().Write() instead of directly to the substores
+	names       []string // persistent substore names
+	mount       []string // mount order (a permutation of names + "t")
+	heightCache bool     // height cache on (variant hc)
+	cacheSize   int64    // IAVL node cache size (small = children are re-read from the database)
+	viaCMS      bool     // block writes go through CacheMultiStore().Write() instead of directly to the substores
 }
 
 type view struct {
@@ -102,7 +103,7 @@ func newNode(be backend, o nodeOpts) *node {
 
 // newStoreObject builds a fresh rootmulti.Store with all substores mounted (not loaded).
 func (n *node) newStoreObject() (*rootmulti.Store, map[string]types.StoreKey, *types.TransientStoreKey) {
-	ms := rootmulti.NewStore(n.cdb, false /* height cache off: C10 is another engine */, n.opts.cacheSize)
+	ms := rootmulti.NewStore(n.cdb, n.opts.heightCache /* on only in the "hc" variants of C09; C10 is another engine */, n.opts.cacheSize)
 	keys := map[string]types.StoreKey{}
 	var tkey *types.TransientStoreKey
 	for _, name := range n.opts.mount {
